@@ -95,5 +95,16 @@ func c09Regressions(w *emit.Writer) error {
 		}
 		report("set with a repeated element", failure)
 	}
+	// a uuid written with capitals is the uuid
+	{
+		failure := ""
+		var u ovsdb.UUID
+		err := json.Unmarshal([]byte(`["uuid","ABCDEF00-0000-4000-8000-00000000000A"]`), &u)
+		b, _ := json.Marshal(u)
+		if err != nil || string(b) != `["uuid","abcdef00-0000-4000-8000-00000000000a"]` {
+			failure = fmt.Sprintf(`["uuid","ABCDEF00-0000-4000-8000-00000000000A"] decodes and encodes again as %s (%v), expected the same uuid in lower case`, b, err)
+		}
+		report("uuid in upper case", failure)
+	}
 	return nil
 }
